@@ -191,9 +191,9 @@ func runSizes(c SizeCase) (*sizeStats, error) {
 	write := func(i int, op SizeOp, sentinel bool) {
 		var secure bool
 		var dir string
-		isRTCP := op.Entry != "stream-rtp" && op.Entry != "client-rtp"
+		isRTCP := op.Entry != "stream-rtp" && op.Entry != "client-rtp" && op.Entry != "session-rtp-reader"
 		switch op.Entry {
-		case "stream-rtp", "stream-rtcp", "session-rtcp-reader":
+		case "stream-rtp", "stream-rtcp", "session-rtcp-reader", "session-rtp-reader":
 			secure, dir = rdSecure, "s2c"
 		case "session-rtcp-pub":
 			secure, dir = pubSecure, "s2c"
@@ -239,7 +239,7 @@ func runSizes(c SizeCase) (*sizeStats, error) {
 		} else {
 			seq := uint16(1000 + i)
 			var pt uint8
-			if op.Entry == "stream-rtp" {
+			if op.Entry == "stream-rtp" || op.Entry == "session-rtp-reader" {
 				pt = desc.Medias[mi].Formats[0].PayloadType()
 			} else {
 				pt = pubDesc.Medias[mi].Formats[0].PayloadType()
@@ -255,6 +255,12 @@ func runSizes(c SizeCase) (*sizeStats, error) {
 			d.id, d.size = uint32(seq), total
 			if op.Entry == "stream-rtp" {
 				d.err = w.Stream.WritePacketRTP(desc.Medias[mi], pkt)
+			} else if op.Entry == "session-rtp-reader" {
+				// written to one session directly: sequence numbers of this path start at 20000 so that they never
+				// coincide with the stream's
+				pkt.SequenceNumber += 19000
+				d.id = uint32(pkt.SequenceNumber)
+				d.err = rdSess.WritePacketRTP(desc.Medias[mi], pkt)
 			} else {
 				d.err = pub.WritePacketRTP(pubDesc.Medias[mi], pkt)
 			}
